@@ -72,6 +72,7 @@ def source(sfx, p, with_inner=True, variant=0):
           "    tpl: dict = Field(default_factory=fac_template)",
           "    cst: list = Field(const=[1, 2], required=False)",
           "    enl: list = Field(enum=EnumOfLists, required=False)",
+          "    lge: list = Field(ge=Lax([0, 0]), required=False)",
           f"    inner: Optional['Inner{S}'] = None", f"    inners: List['Inner{S}'] = Field(default_factory=list)",
           "    leaf: Optional[Leaf] = None", "    def __validate__(self):", "        hook_point('validate')", ""]
     L += [f"class D{S}(DataClass):", f"    __options__ = {opt}", "    n: int", "    lst: List[int] = [1]",
@@ -137,6 +138,9 @@ INIT_TEMPLATES = [
     {"n": 1, "cst": [1, 2, 99]},                            # not the constant
     {"n": 1, "enl": [1, 1]},                                # a member of an Enum whose values are mutable
     {"n": 2, "enl": [2, 2], "lst": [4]},
+    {"n": 1, "lge": [-1]},                                  # below a lax bound: the bound is the result
+    {"n": 2, "lge": [-5, 3], "lst": [1]},
+    {"n": 1, "lge": [1, 1]},
 ]
 D_TEMPLATES = [{"n": 1, "lst": [], "dct": {"g": []}}, {"n": 1}, {"n": "2", "lst": ["3"]}, {"n": 1, "dct": {"q": [1]}}, {"n": "zz"}, {"n": 1, "raw": [[1]]},
                {"n": 1, "leaf": {"$r": 0}}, {}, {"n": 1, "exd": "zz"}, {"n": 1, "exd": 5}, {"n": 1, "exd": 6, "dep": 2}]
@@ -184,7 +188,7 @@ def generate(rng, tier):
             # the very same input object handed to a second parse (fields of a bare list / dict / Any type keep the
             # caller's object by design, so such inputs are left out)
             earlier = [m for m, o in enumerate(ops) if o["op"] == "init" and o["cls"] == cls and "same_as" not in o
-                       and not set(o["data"]) & {"raw", "anyv", "tpl", "lax", "leaf"}]
+                       and not set(o["data"]) & {"raw", "anyv", "tpl", "lax", "leaf", "cst", "enl", "lge"}]
             if earlier and rng.random() < 0.25:
                 m = rng.choice(earlier)
                 ops.append({"op": "init", "cls": cls, "data": copy.deepcopy(ops[m]["data"]), "same_as": m})
